@@ -91,6 +91,16 @@ def cases(tier, seed):
     add("text_only", st("Display", T2, Attr(["plain text"])))
     add("empty_literal", st("Display", T1, Attr([])))
     add("escapes_only", st("Binary", T1, Attr(["{}"])))
+    # one modifier-free placeholder in a literal that starts AND ends with a brace only because of ESCAPES (both sides, one side each):
+    # not a lone placeholder -- the braces and the text are printed (seed C03_r2_2: they vanished through a transparent delegation)
+    add("escapes_both_sides_implicit", st("Display", T1, Attr(["{", P(), "}"], ["_0"])))
+    add("escapes_end_only", st("Display", T1, Attr([P("_0"), "{}"])))
+    add("escapes_start_only_text", st("Display", N1, Attr(["{a}=", P("a")])))
+    add("escapes_start_only", st("LowerHex", T1, Attr(["{}", P(0, "x")], ["_0"])))
+    add("escapes_both_sides_variant", en("Display", [Variant("Other", []), Variant("V", T1, attr=Attr(["{", P(), "}"], ["*_0"])),
+                                                     Variant("W", N1, attr=Attr(["{a}", P("a", "o")]))]))
+    add("escapes_both_sides_debug", st("Debug", T1, Attr(["{", P("_0", "?"), "}"])))
+    add("escapes_end_only_debug_variant", en("Debug", [Variant("Other", T1), Variant("V", T1, attr=Attr([P(None), "{x}"], ["_0"]))]))
     # 5. whitespace before `}`
     add("ws_named_and_index", st("Display", T2, Attr([P("_0", ws=" "), " ", P(0, ws=" ")], ["_1"])))
     add("ws_typed_with_text", st("Display", T1, Attr(["x", P(None, "x", ws=" ")], ["_0"])))
